@@ -46,6 +46,8 @@ type NodeOpts struct {
 	// non-zero HandlerDelay also delays every mutating manager call.
 	WatchIDs     []types.BlockID
 	HandlerDelay time.Duration
+	// Activity, if set, is told about everything sync-related this node does
+	Activity *Activity
 	// KeepLog keeps the tail of the syncer's debug log in memory (diagnosis of
 	// stalls; not used by any oracle).
 	KeepLog bool
@@ -212,6 +214,7 @@ func NewNode(o NodeOpts) (*Node, error) {
 	n := &Node{Name: o.Name, IP: o.IP, Opts: o, CM: cm, PS: NewPeerStore(), UID: gateway.GenerateUniqueID()}
 	n.jrng = rand.New(rand.NewPCG(o.JitterSeed, 0x9e3779b97f4a7c15))
 	n.Mon = NewMonitor(o.Name, o.Tree, cm, base)
+	n.Mon.Act = o.Activity
 	n.ACM = &AuditCM{Manager: cm, Mon: n.Mon}
 	if o.Jitter > 0 {
 		n.ACM.Perturb = n.jitter
